@@ -116,6 +116,80 @@ def field_wise(F, rep):
     return conv_fn
 
 
+_RC = {}
+
+
+def _R(F):
+    from roles import Roles
+    if id(F) not in _RC:
+        _RC[id(F)] = Roles(F)
+    return _RC[id(F)]
+
+
+def _none_edges_return_err(F, b):
+    """some `match opt { None => return Err(..), Some(x) => … }` / `let Some(x) = opt else { return Err(..) }`: a switch on
+    the discriminant of an Option whose None edge reaches only blocks that build Result::Err and never Result::Ok"""
+    tb = Terms(F, b, inline_depth=0)
+    for s in b.reachable():
+        sw = b.term(s)
+        if sw["k"] != "switch":
+            continue
+        p = op_place(sw["discr"])
+        cnd = tb.operand(sw["discr"])
+        if not (isinstance(cnd, tuple) and cnd and cnd[0] == "discr"):
+            continue
+        ty = _discr_ty(b, s)
+        if ty is None or not ty.startswith("core::option::Option<"):
+            continue
+        none_t = [x[1] for x in sw["targets"] if x[0] == "0"]
+        if not none_t and [x for x in sw["targets"] if x[0] == "1"]:
+            none_t = [sw["otherwise"]]
+        if not none_t:
+            continue
+        region = b.reach_from(none_t[0], removed_blocks=(s,))
+        errs = oks = 0
+        for r in region:
+            for st in b.stmts(r):
+                rv = st.get("rv", {})
+                if rv.get("k") == "agg" and rv.get("adt") == "core::result::Result":
+                    if rv.get("variant") == "Err":
+                        errs += 1
+                    else:
+                        oks += 1
+            t = b.term(r)
+            if t["k"] == "call" and (t["callee"].endswith("::to_gbp") or "ops::arith" in t["callee"]):
+                oks += 1
+        if errs and not oks:
+            return True
+    return False
+
+
+def _discr_ty(b, s):
+    """type of the place whose discriminant is switched on in block s"""
+    sw = b.term(s)
+    p = op_place(sw["discr"])
+    if p is None:
+        return None
+    for st in reversed(b.stmts(s)):
+        if st.get("lhs", {}).get("l") == p["l"] and st.get("rv", {}).get("k") == "discr":
+            q = st["rv"]["p"]
+            ty = b.local_ty(q["l"])
+            if place_proj(q):
+                return None if any(isinstance(e, dict) for e in place_proj(q)) else _strip_refty(ty)
+            return _strip_refty(ty)
+    return None
+
+
+def _strip_refty(ty):
+    while ty.startswith("&"):
+        ty = ty[1:].lstrip()
+        if ty.startswith("mut "):
+            ty = ty[4:]
+        if ty.startswith("'"):
+            ty = ty.split(" ", 1)[1] if " " in ty else ty
+    return ty
+
+
 def converter(F, rep, conv_fn):
     # FXCONV: body calling FxCache::get and a Decimal division
     fx = [b for b in F.bodies.values() if P.user_written(F, b) and any(t["callee"].endswith("FxCache::get") for _, t in b.calls())
@@ -160,17 +234,22 @@ def converter(F, rep, conv_fn):
         rep.ob("R5", f"{bb.short}:no-default", not dfl, "missing cache / missing rate is never defaulted" if not dfl else
                f"a missing value is defaulted via {dfl} (an amount could silently be treated as GBP)", bb.loc(), key=f"R5:{bb.short}:defaulting")
         okors = [t for _, t in bb.calls() if parse_callee(t["callee"])[2] in ("ok_or", "ok_or_else")]
-        rep.ob("R5", f"{bb.short}:ok_or", bool(okors), "Option results are turned into Err with ok_or" if okors else "no ok_or on the lookup result",
-               bb.loc(), key=f"R5:{bb.short}:ok_or")
-        btb = Terms(F, bb, inline_depth=0)
-        for i, si, s in bb.assigns():
-            rv = s["rv"]
-            if rv["k"] == "agg" and rv["variant"] in ("MissingFxRate", "MissingRate"):
-                f = dict(zip(rv["fields"], [btb.operand(o) for o in rv["ops"]]))
-                txt = {k: show(v) for k, v in f.items()}
-                ok = "code" in txt.get("currency", "") and "year(" in txt.get("year", "") and "month(" in txt.get("month", "")
-                rep.ob("R5", f"{bb.short}:error-names-currency-month", ok, "error carries the currency code and the date's year/month" if ok else
-                       f"error fields are {txt}", bb.loc(s["sp"]), key=f"R5:{bb.short}:error-fields")
+        none_err = _none_edges_return_err(F, bb)
+        ok_none = bool(okors) or none_err
+        rep.ob("R5", f"{bb.short}:ok_or", ok_none, "an absent Option (cache / rate) is turned into Err (ok_or, or a None arm that only returns Err)" if ok_none else
+               "no ok_or on the lookup result and no None arm returning Err", bb.loc(), key=f"R5:{bb.short}:ok_or")
+        from roles import Roles, Region
+        rg = Region(_R(F), bb, depth=1)
+        for hb in rg.bodies.values():
+            btb = Terms(F, hb, inline_depth=0)
+            for i, si, s in hb.assigns():
+                rv = s["rv"]
+                if rv["k"] == "agg" and rv["variant"] in ("MissingFxRate", "MissingRate"):
+                    f = dict(zip(rv["fields"], [rg.convs[hb.id](btb.operand(o)) for o in rv["ops"]]))
+                    txt = {k: show(v) for k, v in f.items()}
+                    ok = "code" in txt.get("currency", "") and "year(" in txt.get("year", "") and "month(" in txt.get("month", "")
+                    rep.ob("R5", f"{bb.short}:error-names-currency-month", ok, "error carries the currency code and the date's year/month" if ok else
+                           f"error fields are {txt}", hb.loc(s["sp"]), key=f"R5:{bb.short}:error-fields")
     # GBP short-circuit also in the core wrapper
     if conv_fn in F.bodies:
         cb = F.bodies[conv_fn]
@@ -325,10 +404,14 @@ def wiring(F, rep):
                key=f"R8:{b.short}:cache-none")
     if n < 3:
         rep.unresolved("R8", "frontends", f"{n} front-end call sites of calculate()")
-    main = F.bodies.get("cgt_tool::main")
-    if main is None:
-        rep.unresolved("R8", "cli", "cgt_tool::main not found")
+    # the CLI function that chooses the cache: the one calling both loaders (main itself or a helper of it)
+    cands = [b for b in F.bodies.values() if b.crate == "cgt_tool" and P.user_written(F, b)
+             and any(t["callee"].endswith("load_cache_with_overrides") for _, t in b.calls())
+             and any(t["callee"].endswith("load_default_cache") for _, t in b.calls())]
+    if len(cands) != 1:
+        rep.unresolved("R8", "cli", f"{len(cands)} CLI functions call both cache loaders")
         return
+    main = cands[0]
     tb = Terms(F, main, inline_depth=0)
     ov = [(i, t) for i, t in main.calls() if t["callee"].endswith("load_cache_with_overrides")]
     df = [(i, t) for i, t in main.calls() if t["callee"].endswith("load_default_cache")]
@@ -339,7 +422,7 @@ def wiring(F, rep):
         if sw["k"] != "switch":
             continue
         c = tb.operand(sw["discr"])
-        if isinstance(c, tuple) and c and c[0] == "discr" and "fx_folder" in show(c):
+        if isinstance(c, tuple) and c and c[0] == "discr" and ("fx_folder" in show(c) or "PathBuf" in (_discr_ty(main, s) or "")):
             some_t = [x for v, x in sw["targets"] if v == "1"]
             none_t = [x for v, x in sw["targets"] if v == "0"] or ([sw["otherwise"]] if main.term(sw["otherwise"])["k"] != "unreachable" else [])
             if some_t and none_t and ov and df:
